@@ -205,6 +205,8 @@ var c20Pool = []string{"$a + 1", "[$a + 1, $a]", "[$a + $a, $a, $b]", "$a", "$a 
 	"$a = 7, this.$a", "$b = x, [this.$b, $b, this.x]", "$a = $a, this.$a",
 	// a local counted up or down on the left of a logical operator: once per evaluation
 	"($a = $a + 1) || 0", "($a = $a + 1) && k", "[($a = $a + 1) || 0, $a]", "($b = $a) || x", "$b = ($a = $a + 1) && $a",
+	// evaluations that fail before they bind anything: the runner keeps working on the caller's map afterwards
+	"x = 1", "1 = 2", "(k) = 3",
 	// a list that binds is evaluated wherever it stands - also as a non-final operand of a comma sequence
 	"[$a = 6, $b = 2], $a + $b", "[$a = $a + 1], $a", "[x, [$b = k]], $b",
 	// locals bound inside a list or under a condition, also as the first thing a runner without a map does
@@ -300,7 +302,7 @@ func TestC20Exhaustive(t *testing.T) {
 
 // TestC20Random: longer histories with the full formula pool.
 func TestC20Random(t *testing.T) {
-	run := h.Begin("C20", "random", "rapid: histories of 1-14 operations drawn from the same operation kinds with random keys {x, k, $a, $b, __v, $__v, len, year}, random integer values (1 in 5 beyond 2^53) or strings that look like timestamps / numbers / keywords, and the 48-formula pool (locals are entries of the data map: also read back through this.$name within the same evaluation); same oracle; non-trivial as in the exhaustive part; distinct by history")
+	run := h.Begin("C20", "random", "rapid: histories of 1-14 operations drawn from the same operation kinds with random keys {x, k, $a, $b, __v, $__v, len, year}, random integer values (1 in 5 beyond 2^53) or strings that look like timestamps / numbers / keywords, and the 51-formula pool (locals are entries of the data map: also read back through this.$name within the same evaluation); same oracle; non-trivial as in the exhaustive part; distinct by history")
 	defer run.End(t)
 	h.RapidSetup(h.N(6000, 2000000), "c20rand")
 	rapid.Check(t, func(rt *rapid.T) {
